@@ -19,7 +19,7 @@ void prop_C14(void)
     fx_t *x = &d.x; const slu_vt *vt = x->vt; int n = x->n;
     const char *api = P_str("api", "gssvx");
     void *work = NULL;
-    if (lwork > 0) { work = hx_malloc((size_t)lwork); memset(work, 0x5A, (size_t)lwork); }
+    if (lwork > 0) { work = hx_malloc((size_t)lwork); memset(work, 0x7F, (size_t)lwork); }
     g_exit_policy = (faulty || lwork > 0) ? EXITPOL_ALLOW_DIAG : EXITPOL_VIOLATION;
     if (faulty) hx_ctx_add("alloc_fault");
     if (lwork > 0) hx_ctx_add(lwork < P_int("need", 0) ? "user_workspace_short" : "user_workspace_ok");
